@@ -59,6 +59,26 @@ func (w *simWorker) project(snap int64) (*types.Project, error) {
 	return p, nil
 }
 
+// projectLimited is project() with an attachment limit that is never reached: every attach
+// and detach then goes through the doc-attachment locker (a project without a limit never
+// takes it).
+func (w *simWorker) projectLimited(snap int64) (*types.Project, error) {
+	k := fmt.Sprintf("s%d-limited", snap)
+	if p, ok := w.projs[k]; ok {
+		return p, nil
+	}
+	th := snap
+	if th == 0 {
+		th = boot.NoSnapshot
+	}
+	p, err := w.env.NewProject(context.Background(), "pl"+k, boot.ProjectOpts{SnapshotInterval: th, SnapshotThreshold: th, MaxAttachments: 1000})
+	if err != nil {
+		return nil, err
+	}
+	w.projs[k] = p
+	return p, nil
+}
+
 func failuresTo(res *runner.CaseResult, w *sim.World, h sim.History, identFn func(f sim.Failure) string) {
 	for _, f := range w.Fail {
 		id := ""
